@@ -8,6 +8,8 @@ that simulate() actually used.
 """
 from __future__ import annotations
 
+import os
+
 import datetime as dt
 from types import SimpleNamespace
 
@@ -198,6 +200,8 @@ def main(run: core.Run, only=None):
                   "history": [{"coords": [list(c) for c in FIELDS["irregular"]], "loads": "office"}]})
     cases.append({"kind": "tables", "field": "L", "coords": [list(c) for c in FIELDS["L"]], "loads": "office", "pipe": "single", "H": 73.0,
                   "history": [{"coords": [list(c) for c in FIELDS["1"]], "loads": "index"}, {"coords": [list(c) for c in FIELDS["2x2"]], "loads": "pattern"}]})
+    if os.environ.get("VF_C19_NO_HISTORY"):
+        cases = [c for c in cases if "history" not in c]  # (used once to exercise the explorer's worker-history replay)
     run.drive(cases, family="tables")
     real = [{"engine": "B", "method": "nearsquare", "pipe": "single", "flow": "borehole", "load": "office"},
             {"engine": "B", "method": "rowwise", "pipe": "coaxial", "flow": "system", "load": "mirror"}]
